@@ -826,7 +826,7 @@ class SemantivaOrchestrator(ABC):
 
     def _resolve_processor_classes(
         self, canonical: dict[str, Any], resolved_spec: Sequence[dict[str, Any]]
-    ) -> list[type]:
+    ) -> list[Any]:
         """Resolve processor classes from resolved spec without instantiation.
 
         This allows computing semantic IDs before emitting any node events.
@@ -834,17 +834,22 @@ class SemantivaOrchestrator(ABC):
         """
         from semantiva.registry import resolve_symbol
 
-        classes: list[type] = []
+        classes: list[Any] = []
         for node_def in resolved_spec:
             proc = node_def.get("processor")
 
-            # Resolve class reference
+            # Resolve class reference.  This pass only feeds the trace header: a
+            # reference that cannot be resolved is left to node instantiation, which
+            # reports configuration errors in node order exactly as an untraced run
+            # does (and after pipeline_start, so that the trace is closed properly).
+            proc_cls: Any = None
             if isinstance(proc, str):
-                proc_cls = resolve_symbol(proc)
+                try:
+                    proc_cls = resolve_symbol(proc)
+                except Exception:
+                    proc_cls = None
             elif isinstance(proc, type):
                 proc_cls = proc
-            else:
-                raise ValueError(f"Invalid processor specification: {proc}")
 
             classes.append(proc_cls)
 
